@@ -135,6 +135,9 @@ CONTRACT_CLASSES = ("postcondition", "precondition", "assigns", "loop_invariant"
                     "loop_decreases", "loop_assigns", "unwind", "assertion")
 
 
+LEDGER_CLASSES = ("postcondition", "loop_invariant", "loop_decreases", "precondition")
+
+
 def classify(prop_name, desc):
     if "canary" in desc:
         return "canary"
@@ -555,9 +558,15 @@ def ledger():
 def _judge(job, res, results, alltxt, t0):
     classes = {}
     failed, canary_ok = [], False
+    sites = {}
     for r in results:
         c = classify(r["property"], r.get("description", ""))
         classes[c] = classes.get(c, 0) + 1
+        # a site = (function, line, text) of a contract clause: goto-instrument may instantiate one clause several times
+        # (one copy per back edge of a loop whose condition holds a replaced call), and how many copies it makes
+        # depends on its internal symbol ordering, which changes with the scratch directory path
+        sites.setdefault(c, set()).add((r["property"].split(".")[0], (r.get("sourceLocation") or {}).get("line"),
+                                        r.get("description", "")))
         if c == "canary":
             if r["status"] == "FAILURE":
                 canary_ok = True
@@ -570,6 +579,7 @@ def _judge(job, res, results, alltxt, t0):
     n = sum(v for k, v in classes.items() if k != "canary")
     res["obligations"] = n
     res["classes"] = classes
+    res["sites"] = {c: len(v) for c, v in sites.items() if c in LEDGER_CLASSES}
     res["wall_s"] = round(time.time() - t0, 2)
     res["samples"] = [r["property"] + ": " + r.get("description", "") for r in results
                       if classify(r["property"], r.get("description", "")) in
@@ -601,11 +611,17 @@ def _judge(job, res, results, alltxt, t0):
         return res
     led = ledger().get(job.name)
     if led:
-        for c in ("postcondition", "loop_invariant", "loop_decreases", "precondition"):
-            if classes.get(c, 0) < led.get(c, 0):
+        # compared per class on distinct clause sites, not on raw obligation counts: the raw count of one and the same
+        # instrumentation differs between runs (see above) and a raw comparison raised false UNDECIDEDs on the unchanged tree.
+        # Ledger entries recorded before sites were kept (no "_sites") only say which classes must be present.
+        lsites = led.get("_sites")
+        for c in LEDGER_CLASSES:
+            have = res["sites"].get(c, 0)
+            want = lsites.get(c, 0) if lsites is not None else min(1, led.get(c, 0))
+            if have < want:
                 res["outcome"] = "UNDECIDED"
-                res["reason"] = "obligations vanished: %d '%s' obligations generated, ledger of the pinned tree has %d" % (
-                    classes.get(c, 0), c, led.get(c, 0))
+                res["reason"] = "obligations vanished: %d distinct '%s' clause sites generated, ledger of the pinned tree has %d" % (
+                    have, c, want)
                 return res
         if n * 2 < led.get("_total", 0):
             res["outcome"] = "UNDECIDED"
